@@ -161,6 +161,8 @@ func NewExec(ld *Loaded, sol *Solver) *Exec {
 	ex := &Exec{prog: ld.prog, ld: ld, sol: sol, intr: map[string]intrinsic{}, funcsSeen: map[*ssa.Function]bool{}, intrHit: map[string]int{}}
 	ex.ts = NewTermStore()
 	ex.consts = map[*ssa.Const]V{}
+	ex.ipdomCache = map[*ssa.Function]map[*ssa.BasicBlock]*ssa.BasicBlock{}
+	ex.noIfConv = os.Getenv("GOSYM_NOIFCONV") != ""
 	ex.registerIntrinsics()
 	return ex
 }
@@ -170,6 +172,8 @@ func (ex *Exec) resetPath(prefix []decision) {
 	ex.inited = map[*ssa.Package]bool{}
 	ex.pools = map[*V][]V{}
 	ex.slotIDs = nil
+	ex.undo = nil
+	ex.ifcDepth = 0
 	ex.bufID = 0
 	ex.depth = 0
 	ex.path = &Path{prefix: prefix, known: map[int]bool{}, ndSet: map[string]bool{}, reached: map[string]bool{}}
